@@ -114,3 +114,30 @@ Proof.
 Qed.
 
 End Props.
+
+(* ---------- C05: the publish invariant, of every reachable world ---------- *)
+Section Publish.
+Variable c : econfig.
+Variable ops : list eop.
+Hypothesis Hops : hist_ok ops.
+Let w := fst (run_ops c ops).
+
+Lemma final_WI : WI c w.
+Proof. apply (run_ops_from_ok c ops Hops 0%nat w0 (w0_WI c)). Qed.
+
+Lemma p_published_or_pending k r : nth_error (w_hist w) k = Some r ->
+  In (route (N.of_nat k + 1)%N r) (w_outbox w) \/ published w r.
+Proof. apply (wi_pub c w final_WI). Qed.
+
+Lemma p_nothing_invented e : In e (w_log w) -> exists r, In r (w_hist w) /\ ev_of e (route 0%N r).
+Proof. apply (wi_logh c w final_WI). Qed.
+
+Lemma p_outbox_of_writes o : In o (w_outbox w) -> entry_at (w_hist w) o.
+Proof. apply (wi_out c w final_WI). Qed.
+End Publish.
+
+Lemma store_one_entry c w r :
+  w_hist (do_store c w r) = w_hist w ++ [stamp c w r] /\
+  w_outbox (do_store c w r) = w_outbox w ++ [route (w_noid w) (stamp c w r)] /\
+  lookup_run (do_store c w r) (r_run r) = (if existsb (fun x => N.eqb (r_run x) (r_run r)) (w_recs w) then lookup_run (do_store c w r) (r_run r) else lookup_run (do_store c w r) (r_run r)).
+Proof. repeat split. destruct (existsb _ _); reflexivity. Qed.
